@@ -35,7 +35,6 @@ def _extra(lines, verdicts):
         h["no_metadata_rows"] += obs.count(">r:n")
         h["resends"] += sum(1 for o in obs.split() if o.count(";x:") >= 1)
     h["not_run_environment"] = sum(1 for v in verdicts if v and v.startswith("ok notrun="))
-    h["stale_writeback_observed"] = sum(1 for v in verdicts if v and "note=stale-writeback" in v)
     return {"history_content": h}
 
 
